@@ -355,6 +355,56 @@ pub enum Case {
     NewTransport { version: u8 },
     /// MCTPMessageBodyHeader::new(false, variant)  (index into calls::MSG_TYPES)
     NewBody { mt: u8 },
+    /// the two validators called one after the other in this order (the views are
+    /// plain values: what one call refused or accepted must not matter to the next)
+    Seq { steps: Vec<SeqStep> },
+    /// new_from_buf([first]) followed by new_from_buf([second]) for every second byte
+    BodyPairs { first: u8 },
+}
+
+#[derive(Clone, Debug, Serialize, Deserialize, PartialEq, Eq, Hash)]
+pub enum SeqStep {
+    Body { b: u8 },
+    Transport { raw: u32, version: u8 },
+}
+
+/// Validator calls of different cases must not interleave with a sequence case:
+/// sequence cases hold this lock exclusively, single validator cases share it.
+static VALIDATOR_CALLS: std::sync::RwLock<()> = std::sync::RwLock::new(());
+
+fn check_transport(r: &mut CaseResult, raw: u32, version: u8, ctx: &str) {
+    let b = raw.to_be_bytes();
+    let want_ok = b[0] >> 4 == 0 && (b[0] & 0x0F) == version;
+    let got = MCTPTransportHeader::new_from_buf(b, version);
+    match (&got, want_ok) {
+        (Ok(h), true) => {
+            if h.0 != b {
+                r.fail(format!("C18:transport:new_from_buf_changes_bytes{}", ctx), format!("new_from_buf({:02x?}) holds {:02x?}", b, h.0));
+            }
+        }
+        (Err(()), false) => {}
+        (Ok(_), false) => r.fail(format!("C18:transport:new_from_buf_accepts{}", ctx), format!("MCTPTransportHeader::new_from_buf({:02x?}, version {:#x}) succeeds although reserved bits = {:#x}, version nibble = {:#x}", b, version, b[0] >> 4, b[0] & 0xF)),
+        (Err(()), true) => r.fail(format!("C18:transport:new_from_buf_rejects{}", ctx), format!("MCTPTransportHeader::new_from_buf({:02x?}, version {:#x}) fails although reserved bits are zero and the version matches", b, version)),
+    }
+}
+
+fn body_ok(b: u8) -> bool {
+    b & 0x80 == 0 && matches!(b & 0x7F, 0x00 | 0x05 | 0x06 | 0x7E | 0x7F)
+}
+
+fn check_body(r: &mut CaseResult, b: u8, ctx: &str) {
+    let want_ok = body_ok(b);
+    let got = MCTPMessageBodyHeader::new_from_buf([b]);
+    match (&got, want_ok) {
+        (Ok(h), true) => {
+            if h.0 != [b] {
+                r.fail(format!("C18:body:new_from_buf_changes_bytes{}", ctx), format!("new_from_buf([{:#04x}]) holds {:02x?}", b, h.0));
+            }
+        }
+        (Err(()), false) => {}
+        (Ok(_), false) => r.fail(format!("C18:body:new_from_buf_accepts{}", ctx), format!("MCTPMessageBodyHeader::new_from_buf([{:#04x}]) succeeds although the integrity bit is set or the type is unsupported", b)),
+        (Err(()), true) => r.fail(format!("C18:body:new_from_buf_rejects{}", ctx), format!("MCTPMessageBodyHeader::new_from_buf([{:#04x}]) fails for a supported type with the integrity bit clear", b)),
+    }
 }
 
 pub struct C18;
@@ -405,7 +455,7 @@ impl Prop for C18 {
         "C18"
     }
     fn rule(&self) -> String {
-        "enumerated: message-body header: all 2^8 raw values (get, validator, set with every value); control header and PCI header: all 2^16 raw values (get of every field; set of every field with 18 boundary values in quick, all 256 in thorough for the control header); 32-bit views (SMBus, transport, routing entry, IANA): walking-one/zero patterns, every value of every byte on four backgrounds (get of every field and set of every field x boundary values); transport validator: every buf[0] x every version byte; constructors. generated: random (header, field, raw, value) over the full u32 raw range and the setter's full argument type (2M quick / 64M thorough). oracle: an independent (byte, shift, width) table per field from the documented layouts: get = (raw >> shift) & mask; after set raw' = raw & !fieldmask | (value & mask) << shift, read-back = value & mask, every other bit unchanged; MCTPTransportHeader::new_from_buf <=> reserved nibble 0 and version nibble = version; MCTPMessageBodyHeader::new_from_buf <=> bit 7 clear and type supported. non-trivial = raw value with at least one bit set outside the field under test (what a zeroed header cannot show); enumerated cases are distinct by construction".into()
+        "enumerated: message-body header: all 2^8 raw values (get, validator, set with every value); control header and PCI header: all 2^16 raw values (get of every field; set of every field with 18 boundary values in quick, all 256 in thorough for the control header); 32-bit views (SMBus, transport, routing entry, IANA): walking-one/zero patterns, every value of every byte on four backgrounds (get of every field and set of every field x boundary values); transport validator: every buf[0] x every version byte; every ordered pair of message-body validations (256 x 256) and 4 200 pairs involving the transport validator, each pair run without other validator calls of this process in between; constructors. generated: sequences of 2-8 validator calls; random (header, field, raw, value) over the full u32 raw range and the setter's full argument type (2M quick / 64M thorough). oracle: an independent (byte, shift, width) table per field from the documented layouts: get = (raw >> shift) & mask; after set raw' = raw & !fieldmask | (value & mask) << shift, read-back = value & mask, every other bit unchanged; MCTPTransportHeader::new_from_buf <=> reserved nibble 0 and version nibble = version; MCTPMessageBodyHeader::new_from_buf <=> bit 7 clear and type supported. non-trivial = raw value with at least one bit set outside the field under test (what a zeroed header cannot show); enumerated cases are distinct by construction".into()
     }
     fn assumptions(&self) -> Vec<String> {
         vec!["private fields (rsvd, ic) have no public accessor and are exercised only through the validators".into()]
@@ -431,6 +481,17 @@ impl Prop for C18 {
             1 => (any::<bool>(), any::<bool>(), any::<u8>(), any::<u8>()).prop_map(|(rq, d, iid, cmd)| Case::NewControl { rq, d, iid, cmd }),
             1 => (0u8..4, any::<u8>(), any::<u8>(), any::<u8>()).prop_map(|(ty, range, first, phys)| Case::NewRouting { ty, range, first, phys }),
             1 => (any::<bool>(), any::<u32>()).prop_map(|(iana, id)| Case::NewVendor { iana, id }),
+            1 => proptest::collection::vec(
+                prop_oneof![
+                    // the ten bytes around the supported types, with and without the integrity bit
+                    4 => (0u8..10).prop_map(|i| SeqStep::Body { b: [0x00u8, 0x05, 0x06, 0x7E, 0x7F, 0x80, 0x85, 0x86, 0xFE, 0xFF][i as usize] }),
+                    2 => any::<u8>().prop_map(|b| SeqStep::Body { b }),
+                    2 => (prop_oneof![Just(0x01u8), Just(0x11u8), Just(0x02u8), Just(0x00u8), any::<u8>()], any::<u32>(), prop_oneof![Just(1u8), 0u8..16, any::<u8>()])
+                        .prop_map(|(b0, rest, version)| SeqStep::Transport { raw: ((b0 as u32) << 24) | (rest & 0x00FF_FFFF), version }),
+                ],
+                2..=8
+            )
+            .prop_map(|steps| Case::Seq { steps }),
         ]
         .boxed()
     }
@@ -441,7 +502,7 @@ impl Prop for C18 {
         }
     }
     fn required_labels(&self) -> Vec<&'static str> {
-        vec!["get", "set", "long_buffer", "transport_valid_ok", "transport_valid_err", "body_valid_ok", "body_valid_err", "new"]
+        vec!["get", "set", "long_buffer", "transport_valid_ok", "transport_valid_err", "body_valid_ok", "body_valid_err", "new", "validator_sequence"]
     }
     fn enumerate(&self, tier: Tier, shard: usize, nshards: usize, f: &mut dyn FnMut(Case)) {
         let mut idx = 0usize;
@@ -509,13 +570,28 @@ impl Prop for C18 {
         for version in 0..=255u8 {
             emit(Case::NewTransport { version });
         }
+        // every ordered pair of body-header validations, and pairs of transport validations
+        for first in 0..=255u8 {
+            emit(Case::BodyPairs { first });
+        }
+        for (f0, fv) in [(0x01u8, 1u8), (0x11, 1), (0x02, 1), (0x01, 2), (0xF1, 1), (0x00, 0), (0xFF, 0xFF), (0x21, 0x21)] {
+            for b0 in 0..=255u32 {
+                for version in [1u8, (b0 & 0x0F) as u8] {
+                    emit(Case::Seq { steps: vec![SeqStep::Transport { raw: ((f0 as u32) << 24) | 0x0012_3456, version: fv }, SeqStep::Transport { raw: (b0 << 24) | 0x00A5_5A3C, version }] });
+                }
+            }
+            for b in [0x00u8, 0x05, 0x06, 0x7E, 0x7F, 0x80, 0x01] {
+                emit(Case::Seq { steps: vec![SeqStep::Transport { raw: ((f0 as u32) << 24) | 0x0012_3456, version: fv }, SeqStep::Body { b }] });
+                emit(Case::Seq { steps: vec![SeqStep::Body { b }, SeqStep::Transport { raw: ((f0 as u32) << 24) | 0x0012_3456, version: fv }] });
+            }
+        }
         for mt in 0..6u8 {
             emit(Case::NewBody { mt });
         }
     }
     fn enumerated_desc(&self, tier: Tier) -> Option<String> {
         Some(format!(
-            "{}body header: all 2^8 raws x (get, validator, set with all 256 values); control and PCI headers: all 2^16 raws x get and set of every field with {} values; SMBus/transport/routing/IANA: {} structured 32-bit patterns x get and set of every field x 18 values in quick / all 256 in thorough (8 for IANA); transport validator: all 256 first bytes x all 256 version values; transport constructor: all 256 versions",
+            "{}body header: all 2^8 raws x (get, validator, set with all 256 values); control and PCI headers: all 2^16 raws x get and set of every field with {} values; SMBus/transport/routing/IANA: {} structured 32-bit patterns x get and set of every field x 18 values in quick / all 256 in thorough (8 for IANA); transport validator: all 256 first bytes x all 256 version values; all 65 536 ordered pairs of body-header validations and 4 208 pairs involving the transport validator; transport constructor: all 256 versions",
             if tier == Tier::Thorough { "every getter of the SMBus, transport, routing-entry and IANA views on all 2^32 raw values (exhaustive sweep); " } else { "" },
             if tier == Tier::Thorough { "all 256 (control) / 8 (PCI)" } else { "18 (control) / 8 (PCI)" },
             patterns32().len()
@@ -632,32 +708,50 @@ impl Prop for C18 {
                 let want_ok = b[0] >> 4 == 0 && (b[0] & 0x0F) == *version;
                 r.label(if want_ok { "transport_valid_ok" } else { "transport_valid_err" });
                 r.nontrivial = b[0] != 0;
-                let got = MCTPTransportHeader::new_from_buf(b, *version);
-                match (&got, want_ok) {
-                    (Ok(h), true) => {
-                        if h.0 != b {
-                            r.fail("C18:transport:new_from_buf_changes_bytes".to_string(), format!("new_from_buf({:02x?}) holds {:02x?}", b, h.0));
-                        }
-                    }
-                    (Err(()), false) => {}
-                    (Ok(_), false) => r.fail("C18:transport:new_from_buf_accepts".to_string(), format!("MCTPTransportHeader::new_from_buf({:02x?}, version {:#x}) succeeds although reserved bits = {:#x}, version nibble = {:#x}", b, version, b[0] >> 4, b[0] & 0xF)),
-                    (Err(()), true) => r.fail("C18:transport:new_from_buf_rejects".to_string(), format!("MCTPTransportHeader::new_from_buf({:02x?}, version {:#x}) fails although reserved bits are zero and the version matches", b, version)),
-                }
+                let _shared = VALIDATOR_CALLS.read().unwrap_or_else(|e| e.into_inner());
+                check_transport(&mut r, *raw, *version, "");
             }
             Case::BodyValid { b } => {
-                let want_ok = b & 0x80 == 0 && matches!(b & 0x7F, 0x00 | 0x05 | 0x06 | 0x7E | 0x7F);
-                r.label(if want_ok { "body_valid_ok" } else { "body_valid_err" });
+                r.label(if body_ok(*b) { "body_valid_ok" } else { "body_valid_err" });
                 r.nontrivial = true;
-                let got = MCTPMessageBodyHeader::new_from_buf([*b]);
-                match (&got, want_ok) {
-                    (Ok(h), true) => {
-                        if h.0 != [*b] {
-                            r.fail("C18:body:new_from_buf_changes_bytes".to_string(), format!("new_from_buf([{:#04x}]) holds {:02x?}", b, h.0));
+                let _shared = VALIDATOR_CALLS.read().unwrap_or_else(|e| e.into_inner());
+                check_body(&mut r, *b, "");
+            }
+            Case::Seq { steps } => {
+                r.label("validator_sequence");
+                r.nontrivial = steps.len() >= 2;
+                let _alone = VALIDATOR_CALLS.write().unwrap_or_else(|e| e.into_inner());
+                for (i, st) in steps.iter().enumerate() {
+                    let ctx = if i == 0 { "" } else { ":after_other_validations" };
+                    let before = r.failures.len();
+                    match st {
+                        SeqStep::Body { b } => check_body(&mut r, *b, ctx),
+                        SeqStep::Transport { raw, version } => check_transport(&mut r, *raw, *version, ctx),
+                    }
+                    if r.failures.len() > before {
+                        if let Some(f) = r.failures.last_mut() {
+                            f.detail = format!("call {} of the sequence {:02x?}: {}", i + 1, steps, f.detail);
+                        }
+                        break;
+                    }
+                }
+            }
+            Case::BodyPairs { first } => {
+                r.label("validator_sequence");
+                r.nontrivial = true;
+                let _alone = VALIDATOR_CALLS.write().unwrap_or_else(|e| e.into_inner());
+                for second in 0..=255u8 {
+                    check_body(&mut r, *first, "");
+                    let before = r.failures.len();
+                    check_body(&mut r, second, ":after_other_validations");
+                    if r.failures.len() > before {
+                        if let Some(f) = r.failures.last_mut() {
+                            f.detail = format!("right after new_from_buf([{:#04x}]): {}", first, f.detail);
                         }
                     }
-                    (Err(()), false) => {}
-                    (Ok(_), false) => r.fail("C18:body:new_from_buf_accepts".to_string(), format!("MCTPMessageBodyHeader::new_from_buf([{:#04x}]) succeeds although the integrity bit is set or the type is unsupported", b)),
-                    (Err(()), true) => r.fail("C18:body:new_from_buf_rejects".to_string(), format!("MCTPMessageBodyHeader::new_from_buf([{:#04x}]) fails for a supported type with the integrity bit clear", b)),
+                    if !r.failures.is_empty() {
+                        break;
+                    }
                 }
             }
             Case::NewControl { rq, d, iid, cmd } => {
